@@ -62,6 +62,14 @@ Definition judge_posit (cfg : list Z) (op : Z) (args res : list Z) : verdict :=
   if Z.eqb op OP_from_uint then exact [p_of_int_f n es (int_decode false a b)] true else
   if Z.eqb op OP_to_f64 then judge_to_f64 (p_to_num n es a) res else
   if Z.eqb op OP_to_f32 then judge_to_f32 (p_to_num n es a) res else
+  if Z.eqb op OP_conv then
+    (if Z.eqb (Z.of_nat (length cfg)) 4 then     (* posit<n,es> -> posit<n2,es2>: the target's rounding of the source value *)
+       exact [p_of_num_f (nth0 cfg 2) (nth0 cfg 3) (p_to_num n es a)] true
+     else                                          (* posit -> integer<ni> adapter: truncate toward zero, wrap *)
+       match p_to_int n es a with
+       | Some z => exact [wrap (nth0 cfg 2) z] true
+       | None => mkV true res false
+       end) else
   if Z.eqb op OP_to_f64_rt then (if ieee_exact 11 52 (p_to_num n es a) then exact [a] true else mkV true res false) else
   if Z.eqb op OP_to_int then    (* args: width w, bits; res: w-bit two's complement; judged only when it fits *)
     match p_to_int n es b with
@@ -69,3 +77,8 @@ Definition judge_posit (cfg : list Z) (op : Z) (args res : list Z) : verdict :=
     | None => mkV true res false
     end else
   mkV false [] false.
+
+(* integer<ni> -> posit<n,es> adapter: cfg = [ni; n; es] *)
+Definition judge_i2p (cfg : list Z) (args res : list Z) : verdict :=
+  let ni := nth0 cfg 0 in let e := [p_of_int_f (nth0 cfg 1) (nth0 cfg 2) (sgn ni (nth0 args 0))] in
+  mkV (list_eqb e res) e true.
